@@ -28,7 +28,9 @@ PACKAGES = {
            # 'G' is also (the upper case of) a phase label: a chemical's name wins over the phase reading
            {'Humectant': 'Glycerol', 'Fuel': 'Octane', 'G': 'Glycerol'},
            {'Alcohols': (['Ethanol', 'Glycerol', 'Methanol'], [0.5, 0.25, 0.25], False),
-            'Gases': (['CO2', 'N2'], [0.9, 0.1], True)}),
+            'Gases': (['CO2', 'N2'], [0.9, 0.1], True),
+            # a member with a ZERO share: a scalar written to the group sets that member to zero
+            'Solvent': (['Methanol', 'Ethanol', 'Octane'], [0.4, 0.0, 0.6], False)}),
     'B': (['Octane', 'Methanol', 'Ethanol', 'Water', 'Glucose', 'CO2'],
           {'Aqua': 'Water', 'MeOH': 'Methanol'},
           {'Alcohols': (['Methanol', 'Ethanol'], [0.4, 0.6], False),
